@@ -75,9 +75,9 @@ func Main() {
 	grp("mconn-garbage", r.N(8, 400)*len(garbageClasses), child, garbageCase)
 	// the concurrent workloads again under the race detector (child processes of the -race binary)
 	race := core.Opts{Procs: 8, Workers: 4, Race: true, StallSec: 300, Env: []string{"GORACE=halt_on_error=1"}}
-	grp("race-stream-concurrent-writers", r.N(40, 800), race, concurrentWriters)
-	grp("race-mconn-traffic", r.N(60, 1200), race, trafficRandom)
-	grp("race-mconn-stop", r.N(48, 800), race, stopRaceCase)
+	grp("race-stream-concurrent-writers", r.N(40, 2500), race, concurrentWriters)
+	grp("race-mconn-traffic", r.N(60, 4000), race, trafficRandom)
+	grp("race-mconn-stop", r.N(48, 2000), race, stopRaceCase)
 
 	if !r.IsChild() {
 		// the fault-enumeration sub-check: what was enumerated, and that all of it ran
